@@ -12,17 +12,16 @@ TECHNIQUE = ("Coq proofs (finite calendar sweeps by vm_compute with the bound in
              "a hand-written Gallina model of format0/parse_decimal/time_to_epoch/date_time_format/date_time_parse/"
              "time_parse/date_parse/GetTimeAsStringMS; model tied to the code by differential execution "
              "(extracted OCaml vs the real field classes under ASan/UBSan, gmtime_r included, on every day 1970..2099)")
-LEVEL_TEXT = ("Theorems: every valid date 1970..2099 is mapped by time_to_epoch's day count to its day number and "
-              "civil_of_days inverts it (complete sweeps); parse_decimal inverts format0 for every width; for every "
-              "nanosecond tick value before 2038-01-19T03:14:08 all six renderings are the calendar text of the "
-              "instant and parse back to their component (for the whole range 1970..2100 when time_to_epoch is "
-              "evaluated in 64 bits, and for the texts themselves on the whole range as pinned); c09_y2038_refuted and "
-              "c09_log_seconds_refuted give the witnesses where the pinned code violates the property; c09_log_partial "
-              "states exactly when the log renderer is right.")
+LEVEL_TEXT = ("Theorems: civil_of_days (stand-in for gmtime_r) agrees with the specification calendar on all 47482 days and "
+              "time_to_epoch inverts it on every valid date 1970..2099 (complete sweeps); parse_decimal inverts format0 for "
+              "every width; c09_roundtrip: for EVERY nanosecond tick count 1970-01-01..2100-01-01 all six renderings are the "
+              "calendar text of the instant and parse back to their component; c09_parse: the string constructors invert every "
+              "well-formed text of the range; c09_y2038_orig_refuted: the int evaluation before repair 4d1009d failed from "
+              "2038-01-19T03:14:08 on; c09_log_partial / c09_log_seconds_refuted: exactly when the log renderer shows second 60.")
 LEVEL_NOTE = ("Trusted: Coq kernel, extraction, the hand transcription (checked by the correspondence run, which "
               "includes glibc gmtime_r against civil_of_days on all 47482 days and printf's rounding of binary64 "
-              "against the exact rational model), wrapping of int overflow as observed on x86-64.")
-DESIGN_REF = "DESIGN.md section 4, C09 (finding F16; the int overflow of time_to_epoch after 2038 is new)"
+              "against the exact integer model).")
+DESIGN_REF = "DESIGN.md section 4, C09 (finding F16; the int overflow of time_to_epoch after 2038 was found here and repaired in 4d1009d)"
 PROPS_FILE = "Props/Properties_C09.v"
 COQ_TARGETS = ["Props/Properties_C09.vo", "Extract/Extract_C09.vo"]
 TRUSTED_BASE = ["Coq 8.16.1 kernel (coqc), vm_compute only",
@@ -38,14 +37,15 @@ TRUSTED_BASE = ["Coq 8.16.1 kernel (coqc), vm_compute only",
 ASSUMPTIONS = ["process time zone pinned to TZ=UTC for the run: GetTimeAsStringMS(use_gm=false) and Tickval's operator<< "
                "go through localtime_r and print local time otherwise; the FIX field codecs use gmtime_r only "
                "(LocalMktDate is a plain date string, no zone arithmetic)",
-               "int overflow in time_to_epoch (undefined behaviour) wraps modulo 2^32 as on x86-64/gcc; UBSan reports it "
-               "once per site, the model carries the flag separately",
+               "outside the property's range (malformed texts, tick counts beyond 2262) signed overflow / negative shifts "
+               "(undefined behaviour) wrap as on x86-64/gcc; UBSan reports them once per site and continues, the model "
+               "carries a flag separately; inside the range the theorems show no such operation is executed",
                "std::chrono clocks have nanosecond period (Linux libstdc++), time_t and long are 64 bit",
                "strings handed to the const char* constructors are NUL terminated blocks; reads past the NUL trap under ASan",
                "default floating point environment (round to nearest), SSE2 double arithmetic without excess precision"]
 RULE = ("G: get_tm (gmtime_r) of EVERY day 1970-01-01..2099-12-31 against civil_of_days, every run; "
         "T: instants (second of day x millisecond from {0,1,43199,43200,86399} x {0,1,499,500,999}): quick = one on every "
-        "5th day, four on each leap day/month end/year end, all 25 on 1970-01-01, 2000-02-29, 2038-01-19, 2099-12-31...; "
+        "9th day, two on each leap day/month end/year end, all 25 on 1970-01-01, 2000-02-29, 2038-01-19, 2099-12-31...; "
         "thorough = five on EVERY day (rotating: 5 consecutive days cover all 25) and all 25 on the special days; always "
         "the seconds around 2^31, random nanosecond instants, a few outside the range; "
         "P: valid texts of every field type (17/21 and 8/12 character forms, 6/8 MonthYear) plus malformed ones (wrong "
@@ -68,7 +68,11 @@ def build(tier):
                     extra=["-fsanitize-recover=signed-integer-overflow,shift"])
     # halt_on_error=0: the two recover-mode checks report and continue; all other checks are compiled
     # with -fno-sanitize-recover and still abort
-    return {"impl": [exe], "env": {"TZ": "UTC", "UBSAN_OPTIONS": "print_stacktrace=1:halt_on_error=0"},
+    # no symbolizer: a trapping case (class "overrun") costs two process starts, not several seconds
+    return {"impl": [exe],
+            "env": {"TZ": "UTC", "UBSAN_OPTIONS": "print_stacktrace=0:halt_on_error=0",
+                    "ASAN_OPTIONS": "detect_leaks=0:abort_on_error=0:halt_on_error=1:allocator_may_return_null=1:"
+                                    "detect_stack_use_after_return=0:symbolize=0"},
             "batch_timeout": 1800}
 
 
@@ -150,12 +154,12 @@ def gen_T(rng, tier):
             for (s, m) in COMBOS:
                 cs.append(T(d * DAY_NS + s * NS + m * 10 ** 6, "special-day"))
     else:
-        for d in range(rng.randrange(5), DAYS, 5):
+        for d in range(rng.randrange(9), DAYS, 9):
             s, m = COMBOS[(d * 7 + rot) % 25]
-            cs.append(T(d * DAY_NS + s * NS + m * 10 ** 6, "every-5th-day"))
+            cs.append(T(d * DAY_NS + s * NS + m * 10 ** 6, "every-9th-day"))
         for d in special:
-            for j in range(4):
-                s, m = COMBOS[(d * 4 + j + rot) % 25]
+            for j in range(2):
+                s, m = COMBOS[(d * 2 + j + rot) % 25]
                 cs.append(T(d * DAY_NS + s * NS + m * 10 ** 6, "special-day"))
         for d in (0, day_of(1972, 2, 29), day_of(2000, 2, 29), day_of(2036, 2, 29), day_of(2038, 1, 19),
                   day_of(2096, 2, 29), day_of(2099, 12, 31)):
@@ -168,7 +172,7 @@ def gen_T(rng, tier):
     for d in (24854, 24855, 24856, 24868, 24869):
         for s in (0, 11647, 11648, 86399):
             cs.append(T(d * DAY_NS + s * NS, "y2038-boundary"))
-    for _ in range(20000 if thorough else 1500):
+    for _ in range(20000 if thorough else 1000):
         mode = rng.randrange(4)
         if mode == 0:
             t = rng.randrange(0, DAYS * DAY_NS)                       # any nanosecond
@@ -239,9 +243,9 @@ def gen_P(rng, tier):
     # a handful that make the parser read outside the text (each one costs a process restart)
     # (chosen so that no negative intermediate value is shifted before the stray read: the sanitizer
     # summary then names the overrun and not the recoverable shift report)
-    for kind, txt in (("TS", "20140101-10:00"), ("TS", "20140101-10"), ("TO", "10:00"), ("TO", "10"), ("DO", "9"),
-                      ("MY", "9"), ("LD", "99"),
-                      ("TS", "20141401-10:00:00"), ("DO", "20140001"), ("MY", "201499"), ("LD", "20141901")):
+    overruns = (("TS", "20140101-10:00"), ("TO", "10:00"), ("DO", "9"), ("TS", "20141401-10:00:00"), ("DO", "20140001"),
+                ("MY", "201499"), ("TS", "20140101-10"), ("TO", "10"), ("MY", "9"), ("LD", "99"), ("LD", "20141901"))
+    for kind, txt in (overruns if thorough else overruns[:6]):
         cs.append(P(kind, txt, "overrun"))
     return cs
 
@@ -269,10 +273,15 @@ def gen_L(rng, tier):
         bases += [m * 60 + 59, m * 60 + rng.randrange(60)]
     for b in bases:
         for n in nsecs:
-            ds = range(0, 10) if (thorough or b % 60 >= 58) else (rng.randrange(0, 10), rng.randrange(1, 9))
+            if thorough:
+                ds = range(0, 10)
+            elif b % 60 >= 58:
+                ds = (0, 9, rng.randrange(1, 9), rng.randrange(1, 9), rng.randrange(1, 9))
+            else:
+                ds = (rng.randrange(0, 10),)
             for d in ds:
                 cs.append(L(b, n, d, "log-boundary"))
-    for _ in range(20000 if thorough else 1500):
+    for _ in range(20000 if thorough else 1000):
         secs = rng.randrange(0, DAYS * 86400)
         if rng.randrange(3) == 0:
             secs = secs - secs % 60 + 59
@@ -288,7 +297,9 @@ def gen_L(rng, tier):
 
 
 def gen_cases(rng, tier):
-    return gen_G(rng, tier) + gen_T(rng, tier) + gen_P(rng, tier) + gen_L(rng, tier)
+    cs = gen_G(rng, tier) + gen_T(rng, tier) + gen_P(rng, tier) + gen_L(rng, tier)
+    # trapping cases last: the harness is restarted after each, with nothing left to re-feed
+    return [c for c in cs if c.cls != "overrun"] + [c for c in cs if c.cls == "overrun"]
 
 
 def postprocess(case, r):
@@ -328,7 +339,8 @@ def denoted_secs(kind, text):
 
 
 def c_y2038(case, r, m):
-    """negation of the hypothesis `t < 2^31 s` of c09_roundtrip_partial / c09_parse_partial"""
+    """negation of the hypothesis `t < 2^31 s` of c09_roundtrip_orig_partial (finding repaired in 4d1009d: the entry
+    is listed as fixed and suppresses nothing; the classifier is only used again if the entry is set back to known)"""
     w = case.line.split()
     if w[0] == "T":
         return int(w[1]) // NS >= 2 ** 31
